@@ -421,6 +421,10 @@ func (w *World) checkRecursion(prop string) []*Obligation {
 				bounded = true
 			}
 		}
+		if len(comp) == 1 && nodes[comp[0]].c.RecDec != nil {
+			// direct recursion with a declared measure: the `variant.recursion` obligations at the self-calls decide it
+			continue
+		}
 		fam := names[0] + "#recursion"
 		o := &Obligation{ID: fam + "@1", Family: fam, Kind: "recursion", Func: names[0], Goal: "false", Backend: "syntactic",
 			Text: "input-driven recursion without a depth bound: " + strings.Join(names, " <-> ")}
